@@ -6,6 +6,7 @@ import io
 import json
 import quopri
 import struct
+import urllib.parse
 
 from .. import streams as st
 from ..common import scm_str
@@ -23,15 +24,17 @@ RULE = ("case = (codec family, value, delivery schedules, optional corruption). 
         "fired (no-fault) or the corruption actually changed the bytes (fault); distinct = event-log hash.")
 ASSUMPTIONS = [
     "input classes (lengths mod 3/4, escapes, surrogates, numeric limits) are sampled, not enumerated",
-    "Python's base64/json/csv/quopri/struct are the trusted reference codecs",
-    "URI escaping is a pure string function with no port interface: it is not a stream surface and is not driven here",
+    "Python's base64/json/csv/quopri/struct/urllib.parse are the trusted reference codecs",
+    "URI escaping is a pure string function with no port interface; it is driven on text that arrives over a simulated stream (the way "
+    "request lines and query strings do) and judged against urllib.parse (RFC 3986: non-ASCII characters are escaped as their UTF-8 bytes; "
+    "hex digit case is not compared)",
     "encoder output rules are checked by decoding it with the reference codec and, for base64, byte equality with the reference encoder",
 ]
 COMPONENTS = {"real": ["lib/chibi/base64.scm (streaming encode/decode)", "lib/chibi/json.c reader/writer", "lib/chibi/csv.scm", "lib/chibi/quoted-printable.scm",
-                       "(scheme bytevector) accessors (bytevector.stub)", "read-bytevector!/read-string/port buffering", "collector"],
+                       "(scheme bytevector) accessors (bytevector.stub)", "lib/chibi/uri.scm uri-encode / uri-decode", "read-bytevector!/read-string/port buffering", "collector"],
               "stub": ["byte delivery schedule", "stored-byte corruption", "collection schedule", "clock"]}
 BUDGET = {"quick": {"seconds": 55, "cases": 8000}, "thorough": {"seconds": 1200, "cases": 600000}}
-IMPORTS = ["(srfi 18)", "(chibi io)", "(chibi base64)", "(chibi json)", "(chibi csv)", "(chibi quoted-printable)", "(scheme bytevector)"]
+IMPORTS = ["(srfi 18)", "(chibi io)", "(chibi base64)", "(chibi json)", "(chibi csv)", "(chibi quoted-printable)", "(scheme bytevector)", "(chibi uri)"]
 CONFIGS = {
     "sim": {"variant": "sim", "imports": IMPORTS, "timeout_ms": 60000},
     "tiny": {"variant": "tiny", "imports": IMPORTS, "timeout_ms": 60000},
@@ -123,7 +126,7 @@ def corrupt(data, spec):
 
 
 def generate(rng, tier, index, seed):
-    fam = rng.weighted([("b64-encode", 3), ("b64-decode", 3), ("json", 5), ("csv", 3), ("qp", 2), ("accessors", 3)])
+    fam = rng.weighted([("b64-encode", 3), ("b64-decode", 3), ("json", 5), ("csv", 3), ("qp", 2), ("accessors", 3), ("uri", 2)])
     fault = rng.chance(1, 3) and fam != "b64-encode"
     cfg = rng.weighted([("sim", 4), ("tiny", 4), ("asan", 2)])
     kind = rng.choice(["cookie", "fd", "custom"])
@@ -144,6 +147,12 @@ def generate(rng, tier, index, seed):
         case["rows"] = gen_csv(vr)
     elif fam == "qp":
         case["raw"] = rbytes(vr, vr.range(0, 300)).hex()
+    elif fam == "uri":
+        n = vr.weighted([(vr.range(0, 8), 2), (vr.range(9, 80), 3), (vr.range(120, 140), 1)])
+        case["text"] = "".join(chr(vr.weighted([(vr.range(0x61, 0x7a), 5), (vr.range(0x20, 0x7e), 5), (vr.choice([0x25, 0x2b, 0x20, 0x26, 0x3d, 0x2f, 0x3f, 0x23, 0x7e, 0x27]), 3),
+                                                (vr.range(0x80, 0xff), 2), (vr.range(0x100, 0x7ff), 2), (vr.range(0x800, 0xd7ff), 1), (vr.range(0xe000, 0xffff), 1),
+                                                (vr.range(0x10000, 0x10ffff), 1), (vr.range(1, 0x1f), 1)])) for _ in range(n))
+        case["plus"] = vr.chance(1, 3)
     else:
         n = vr.range(1, 40)
         case["raw"] = rbytes(vr, n).hex()
@@ -170,7 +179,15 @@ def stored_bytes(case):
         return o.getvalue().encode("utf-8")
     if fam == "qp":
         return quopri.encodestring(bytes.fromhex(case["raw"]))
+    if fam == "uri":
+        # fault batch: the stored text is a (reference) encoding, which is then corrupted and handed to the decoder
+        return uri_ref(case).encode("ascii") if case["fault"] else case["text"].encode("utf-8")
     return bytes.fromhex(case["raw"])
+
+
+def uri_ref(case):
+    q = urllib.parse.quote_plus if case.get("plus") else urllib.parse.quote
+    return q(case["text"], safe="!*'()")
 
 
 def plan_of(case, data, chunks):
@@ -190,6 +207,15 @@ def plan_of(case, data, chunks):
     elif fam == "qp":
         steps.append({"op": "eval", "src": "(guarded (lambda () (let ((s (slurp-chars (open-sim-input \"i\")))) (bv->list (quoted-printable-decode-bytevector (string->utf8 s))))))"})
         steps.append({"op": "eval", "src": "(guarded (lambda () (write-string (quoted-printable-encode-string (utf8->string (bytevector %s)))) 'ok))" % " ".join(str(b) for b in bytes.fromhex(case["raw"]) if b < 0x80)})
+    elif fam == "uri":
+        plus = "#t" if case["plus"] else "#f"
+        steps.append({"op": "eval", "src": "(define s (slurp-chars (open-sim-input \"i\"))) (string-length s)"})
+        if case["fault"]:
+            steps.append({"op": "eval", "src": "(guarded (lambda () (string? (uri-decode s %s))))" % plus})
+        else:
+            steps.append({"op": "eval", "src": "(guarded (lambda () (write-string (uri-encode s %s)) 'ok))" % plus})
+            steps.append({"op": "eval", "src": "(guarded (lambda () (let ((d (uri-decode (uri-encode s %s) %s))) (list (string=? d s) (string-length d)))))" % (plus, plus)})
+            steps.append({"op": "eval", "src": "(guarded (lambda () (let ((d (uri-decode \"%s\" %s))) (list (string=? d s) (string-length d)))))" % (uri_ref(case), plus)})
     else:
         a = case["acc"]
         end = "(endianness big)" if a["big"] else "(endianness little)"
@@ -291,6 +317,22 @@ def execute(case, run):
             ascii_part = bytes(b for b in bytes.fromhex(case["raw"]) if b < 0x80)
             if steps[2]["res"] == "ok" and quopri.decodestring(enc) != ascii_part:
                 V.append(Verdict("codec-mismatch:qp-encode", "reference decoder reads chibi's encoding %r... as %r..., original %r..." % (enc[:60], quopri.decodestring(enc)[:40], ascii_part[:40]), {"fam": fam}))
+        elif fam == "uri":
+            text = case["text"]
+            n = len(text)
+            enc = steps[2]["out"]
+            allowed = set("ABCDEFGHIJKLMNOPQRSTUVWXYZabcdefghijklmnopqrstuvwxyz0123456789-_.!~*'()%" + ("+" if case["plus"] else ""))
+            unq = urllib.parse.unquote_to_bytes(enc.replace("+", " ") if case["plus"] else enc) if all(c in allowed for c in enc) else None
+            sig = {"fam": fam, "non_ascii": any(ord(c) > 0x7f for c in text), "above_ff": any(ord(c) > 0xff for c in text)}
+            if r["res"] != str(n):
+                V.append(Verdict("codec-mismatch:read-text", "read %s characters from the stream, stored %d" % (r["res"], n), {"fam": fam}))
+            elif steps[2]["res"] != "ok" or unq != text.encode("utf-8"):
+                V.append(Verdict("codec-mismatch:uri-encode", "uri-encode of %r gave %r (reference %r): %s" % (text[:40], enc[:80], uri_ref(case)[:80],
+                                 "characters outside the URI alphabet" if unq is None else "a reference decoder reads it back as %r" % unq[:40]), sig))
+            elif steps[3]["res"] != "(#t %d)" % n:
+                V.append(Verdict("codec-mismatch:uri-roundtrip", "uri-decode(uri-encode(%r)) -> %s, expected (#t %d)" % (text[:40], steps[3]["res"][:60], n), sig))
+            elif steps[4]["res"] != "(#t %d)" % n:
+                V.append(Verdict("codec-mismatch:uri-decode", "uri-decode of the reference encoding %r of %r -> %s, expected (#t %d)" % (uri_ref(case)[:80], text[:40], steps[4]["res"][:60], n), sig))
         else:
             a = case["acc"]
             n = len(data0)
@@ -335,7 +377,7 @@ def execute(case, run):
 
 def sample(case, oc):
     return {"family": case["fam"], "config": case["config"], "kind": case["kind"], "fault": case.get("corrupt"), "chunks": (case.get("chunks") or [])[:24],
-            "value": {k: (case[k][:200] if isinstance(case[k], str) else case[k]) for k in ("raw", "json", "rows", "acc") if k in case}, "trace": oc.trace}
+            "value": {k: (case[k][:200] if isinstance(case[k], str) else case[k]) for k in ("raw", "json", "rows", "acc", "text", "plus") if k in case}, "trace": oc.trace}
 
 
 def shrink(case):
@@ -365,4 +407,4 @@ LEVEL_TEXT = ("Seeded search over (codec family, value, delivery schedule over t
               "corruption). Fault-free batch: independent reference codecs decide the expected result for every schedule; fault batch "
               "(separate, relaxed on purpose): value-or-error, terminates within the tick budget, ASan-clean, context usable afterwards. "
               "Exploration: inputs and schedules are sampled.")
-LEVEL_NOTE = ("Input classes are sampled (not the claim). Trusts Python's base64/json/csv/quopri/struct. URI escaping has no stream surface and is not driven.")
+LEVEL_NOTE = ("Input classes are sampled (not the claim). Trusts Python's base64/json/csv/quopri/struct/urllib.parse.")
